@@ -71,7 +71,7 @@ UNITS = {
     'ringbuf': ('librfn/ringbuf.c', ['ringbuf_init', 'ringbuf_get', 'ringbuf_empty', 'ringbuf_put', 'ringbuf_putchar'], ['ringbuf_t']),
     'messageq': ('librfn/messageq.c', ['messageq_init', 'messageq_claim', 'messageq_send', 'messageq_receive', 'messageq_release',
                                        'messageq_empty'], ['messageq_t']),
-    'fibre': ('librfn/fibre.c', ['add_taint', 'handle_atomic_runq', 'get_next_wakeup', 'fibre_run_atomic'], ['kernel', 'messageq_t']),
+    'fibre': ('librfn/fibre.c', ['add_taint', 'handle_atomic_runq', 'get_next_wakeup', 'fibre_run_atomic', 'fibre_eventq_claim', 'fibre_eventq_send', 'fibre_eventq_empty', 'fibre_eventq_receive', 'fibre_eventq_release'], ['kernel', 'messageq_t']),
 }
 DST = os.path.join(vlib.LEAN, 'Librfn', 'Gen', 'Skeleton.lean')
 
